@@ -265,3 +265,45 @@ func VerifC09Tags() {
 	}
 	zz.Reach("end")
 }
+
+// ---- output names of jobs that can run for one partition within the same second ----
+
+func c09Conn(db *dsql.DB, ctx context.Context) (*dsql.Conn, error) { return &dsql.Conn{}, nil }
+func c09HasTime(ctx context.Context, db *dsql.DB, fileListSQL string) (bool, error) {
+	return true, nil
+}
+func c09NoTags(ctx context.Context, db *dsql.DB, paths []string) ([]string, error) { return nil, nil }
+func c09NoDedupTime(ctx context.Context, db *dsql.DB, paths []string) (bool, error) {
+	return false, nil
+}
+func c09KeepOrder(ctx context.Context, conn *dsql.Conn) (func(), error) { return func() {}, nil }
+
+// VerifC09OutputNames: two jobs for the same partition and tier run the real compactFiles
+// (validation, probes and the DuckDB statements are stand-ins that succeed) one after the
+// other, at two different clock readings: 1 ns, 999 ms (still the same second) or 1 s apart.
+// The jobs are sibling batches of one split (different batch numbers) or the two halves of
+// an adaptive retry (the same batch number). The uploaded storage key derives from the
+// output's base name, so the two names must differ: a collision lets the second upload
+// overwrite the first job's output after its inputs were already deleted. (The clock
+// readings are three concrete scenarios: this run is concrete execution, no solver query
+// decides it.)
+func VerifC09OutputNames() {
+	mk := func(batch int) *Job {
+		return &Job{Measurement: "cpu", Database: "db", Tier: zz.Param("tier", "hourly"), BatchNumber: batch, db: &dsql.DB{}, logger: zerolog.Nop()}
+	}
+	b1 := 1 + zz.Choice("batch_1", 2)
+	b2 := b1
+	if zz.Bool("sibling_batches") {
+		b2 = b1 + 1
+	}
+	files := []downloadedFile{{storageKey: "db/cpu/2024/01/01/00/a.parquet", localPath: "/tmp/w/a.parquet", size: 1}}
+	const t1 = int64(1700000000_000000001)
+	gap := []int64{1, 999_000_000, 1_000_000_000}[zz.Choice("gap", 3)]
+	zz.ClockFixed(t1)
+	o1, e1 := mk(b1).compactFiles(context.Background(), files, "/tmp/w")
+	zz.ClockFixed(t1 + gap)
+	o2, e2 := mk(b2).compactFiles(context.Background(), files, "/tmp/w")
+	zz.Assert(e1 == nil && e2 == nil, "compaction failed although every step succeeds")
+	zz.Assert(filepath.Base(o1) != filepath.Base(o2), "two jobs of one partition produced the same output name: the second upload overwrites the first job's compacted file")
+	zz.Reach("end")
+}
